@@ -175,7 +175,7 @@ func (r *Receiver) registerMsg(ack msgReception, from uint16, msg Message) {
 		return
 	}
 
-	if len(r.reception[ack].idSet) == r.N-1 {
+	if len(r.reception[ack].idSet) == r.N-1 && r.reception[ack].m != nil {
 		r.reception[ack].delivered = true
 		r.Logger.Debugf("Collected enough acknowledgements (from %v) on {sender: %d, digest: %s, round: %d}",
 			r.reception[ack].idSet, ack.sender, shortHex([]byte(ack.digest)), ack.msgRound)
